@@ -430,21 +430,23 @@ func (e *kvElection) becomeLeader(token string, rev uint64) {
 	ctx := e.ctx
 	onPromote := e.onPromote
 
-	// The promotion context lives as long as the term: demote cancels it,
-	// and stopping the election cancels its parent.
+	// The term context lives as long as the term: demote cancels it, and
+	// stopping the election cancels its parent. The refresh and validation
+	// loops and the promotion callback all run on it, so that none of them
+	// is still around when the instance is elected again.
 	termCtx, termCancel := context.WithCancel(ctx)
 	e.termCancel = termCancel
 
 	e.wg.Add(1)
 	go func() {
 		defer e.wg.Done()
-		e.heartbeatLoop(ctx)
+		e.heartbeatLoop(termCtx)
 	}()
 
 	e.wg.Add(1)
 	go func() {
 		defer e.wg.Done()
-		e.validationLoop(ctx)
+		e.validationLoop(termCtx)
 	}()
 
 	if onPromote != nil {
